@@ -217,7 +217,21 @@ pub fn replay_any(_c: &str, case: &Value, known: &Known) -> Option<Outcome> {
 
 pub fn run(ctx: &Ctx) -> i32 {
     ctx.run_replays(|c, case| replay_any(c, case, &ctx.known));
-    let corpus: Vec<Case> = util::repo_queries().into_iter().map(|s| Case { source: s }).collect();
+    // the repository's own programs (book, website, tests, std library), as they are and with the first
+    // table name lengthened by 9 / 18 / 27 / 36 characters (every construct moves to other columns)
+    let mut corpus: Vec<Case> = vec![];
+    let from_re = regex::Regex::new(r"\bfrom ([a-z][a-z0-9_]{1,20})\b").unwrap();
+    for s in util::corpus_programs() {
+        if let Some(name) = from_re.captures(&s).and_then(|c| c.get(1)).map(|m| m.as_str().to_string()) {
+            if !["this", "that", "std", "s", "f", "r"].contains(&name.as_str()) {
+                let word = regex::Regex::new(&format!(r"\b{}\b", regex::escape(&name))).unwrap();
+                for k in [9usize, 18, 27, 36] {
+                    corpus.push(Case { source: word.replace_all(&s, format!("{name}_{}", "x".repeat(k)).as_str()).into_owned() });
+                }
+            }
+        }
+        corpus.push(Case { source: s });
+    }
     ctx.enumerate("repo-queries", corpus, |c| check(c, &ctx.known));
     // width ladder: every template at every identifier length 1..=70, so that each construct is met at
     // every column around the formatter's line widths (exhaustive over templates x lengths)
